@@ -235,3 +235,98 @@ find_options = REG.add(Contract(
     calls={"strax.to_str_tuple": Abstract(pure=True)},
 ))
 check_cache.attrs["self._find_options"] = _find_options_attr
+
+
+# --------------------------------------------------------------------------------------
+# Context._add_saver: EVERY writable frontend is asked; one that refuses does not stop the others (C11)
+# --------------------------------------------------------------------------------------
+_NOBODY = z3.Const("no_frontend", V)
+
+
+def _sf_saver(eng, args, kw, st, fr, k, node):
+    """sf.saver(key, metadata=..., saver_timeout=...): a saver, or DataNotAvailable when this frontend does not take the data"""
+    sf = eng.to_v(st.env["sf"])
+    eng.oblige("add_saver", "the saver is requested for the data key of (run, data type to save, the plugin's lineage)", st,
+               eng.to_v(args[0]) == eng.to_v(st.env["key"]), node)
+    g = dict(st.ghost)
+    g["asked"] = sf
+    g_ref = dict(g)
+    g_ref["refused_by"] = sf
+    fr.on_raise(Exc("DataNotAvailable", Opq(eng.fresh("dna", "V"))), St(st.env, st.heap, st.pc, g_ref))
+    new = eng.fresh("new_saver", "V")
+    g["pending"] = new
+    return k(Opq(new), St(st.env, st.heap, st.pc, g))
+
+
+def _savers_append(eng, args, kw, st, fr, k, node):
+    g = dict(st.ghost)
+    recv = args[0]
+    ok = z3.And(eng.to_v(args[-1]) == st.ghost["pending"],
+                eng.to_v(recv) == z3.Function("getitem", V, V, V)(eng.to_v(st.env["savers"]), eng.to_v(st.env["d_to_save"])))
+    g["appended_for"] = z3.If(ok, st.ghost["asked"], _NOBODY)
+    return k(PNONE, St(st.env, st.heap, st.pc, g))
+
+
+add_saver = REG.add(Contract(
+    F, "Context._add_saver",
+    params=dict(self="V", savers="V", d_to_save="V", run_id="V", target_plugin="V", combining="bool"),
+    ensures=lambda S, a, r: [("the (updated) savers dictionary is returned", S.eq(r, a.savers))],
+    raises={},
+    ghost={"asked": _NOBODY, "refused_by": _NOBODY, "pending": z3.Const("no_saver", V), "appended_for": _NOBODY},
+    calls={"self.get_data_key": Abstract(pure=True), "sf.saver": _sf_saver, "target_plugin.metadata": Abstract(pure=True),
+           "savers.setdefault": Abstract(sort=None), ".append": _savers_append},
+    loops={1: Loop(lambda S, a: [], runs_to_exhaustion=True,
+                   iterates=lambda S, a: [("the frontends are asked in the context's storage order", S.eq(a.it_, S.attr(a.self, "_sorted_storage")))],
+                   body_ensures=lambda S, a: [
+                       ("every frontend that is not read-only is asked for a saver, and the saver it gives is appended to the savers of "
+                        "the data type; one that refuses (DataNotAvailable) is passed over",
+                        S.Or(S.truthy(S.attr(a.sf, "readonly")),
+                             S.And(S.eq(a.ghost.asked, a.sf), S.Or(S.eq(a.ghost.refused_by, a.sf), S.eq(a.ghost.appended_for, a.sf)))))])},
+    loop_ghost={1: ["asked", "refused_by", "pending", "appended_for"]},
+))
+
+
+# --------------------------------------------------------------------------------------
+# Context.is_stored: several data types are stored only if EVERY one of them is; one is stored iff some frontend has it (C11)
+# --------------------------------------------------------------------------------------
+IS = z3.Function("fn:self.is_stored", V, V, V, V, z3.BoolSort())      # (run_id, t, chunk_number, combining) as the Abstract call builds it
+ISF = z3.Function("fn:self._is_stored_in_sf", V, V, V, V, V, z3.BoolSort())
+
+
+def _is_tuple_ens(n):
+    def ens(S, a, r):
+        from pyvc.engine import Opq as _O
+        each = []
+        for t in a.target:
+            each.append(z3.Function("fn:self.is_stored", V, V, V, V, z3.BoolSort())(S.v(a.run_id), S.v(t), S.v(a.chunk_number), S.v(a.combining)))
+        return [("a tuple / list of data types is stored exactly if every one of them is", S.Iff(r, S.And(*each)))]
+    return ens
+
+
+for _n in (2, 3):
+    REG.add(Contract(
+        F, "Context.is_stored", variant=f"{_n} data types",
+        params=dict(self="V", run_id="V", target=tuple(["V"] * _n), detailed="bool", chunk_number="V", combining="V", kwargs={}),
+        ensures=_is_tuple_ens(_n), raises={},
+        calls={"self.is_stored": Abstract(sort="bool", pure=True)},
+        expected_dead=[("return True", ""), ("return False", "")],
+    ))
+
+
+def _is_single_ens(S, a, r):
+    store = S.attr(a.self, "_sorted_storage")
+    has = lambda j: ISF(S.v(a.run_id), S.v(a.target), S.iter_elem(store, j), S.v(a.chunk_number), S.v(a.combining))
+    return [("one data type is stored exactly if some frontend of the context has it",
+             S.Iff(r, S.exists(0, S.iter_len(store), has)))]
+
+
+is_stored_single = REG.add(Contract(
+    F, "Context.is_stored", variant="one data type",
+    params=dict(self="V", run_id="V", target="V", detailed="bool", chunk_number="V", combining="V", kwargs={}),
+    requires=lambda S, a: [("the target is a single name", S.Not(S.is_instance(a.target, "tuple+list")))],
+    ensures=_is_single_ens, raises={"KeyError": lambda S, a: S.true},
+    calls={"self._is_stored_in_sf": Abstract(sort="bool", pure=True), "self.log.warning": Abstract(sort=None), "self.new_context": Abstract()},
+    loops={1: Loop(lambda S, a: [("no frontend visited so far has the data", S.forall(0, a.k_, lambda j: S.Not(
+        ISF(S.v(a.run_id), S.v(a.target), S.iter_elem(S.attr(a.self, "_sorted_storage"), j), S.v(a.chunk_number), S.v(a.combining)))))])},
+    consts={"strax.SaveWhen.ALWAYS": z3.IntVal(3)},
+))
